@@ -12,10 +12,10 @@ cat $OUT/confirm_tests$I.txt
 TESTS_OK=0; grep -q " 0 Failures" $OUT/confirm_tests$I.txt && TESTS_OK=1
 R=$WT/lib60870-C/src
 DEMO="gcc -g -I$R/inc/api -I$R/inc/internal -I$R/hal/inc -I$R/common/inc -I$R/file-service -I$WT/lib60870-C/config $OUT/demo$I.c $WT/_build/src/liblib60870.a -lpthread -lm -o $OUT/demo${I}_bin"
-$DEMO && (timeout 300 $OUT/demo${I}_bin > $OUT/confirm_demo_with$I.txt 2>&1; echo "exit=$?" >> $OUT/confirm_demo_with$I.txt)
+$DEMO && (unshare -rn sh -c "ip link set lo up; timeout 300 $OUT/demo${I}_bin" > $OUT/confirm_demo_with$I.txt 2>&1; echo "exit=$?" >> $OUT/confirm_demo_with$I.txt)
 tail -3 $OUT/confirm_demo_with$I.txt
 cd $WT && git checkout -- . && cmake --build $WT/_build 2>&1 | tail -1
-$DEMO && (timeout 300 $OUT/demo${I}_bin > $OUT/confirm_demo_without$I.txt 2>&1; echo "exit=$?" >> $OUT/confirm_demo_without$I.txt)
+$DEMO && (unshare -rn sh -c "ip link set lo up; timeout 300 $OUT/demo${I}_bin" > $OUT/confirm_demo_without$I.txt 2>&1; echo "exit=$?" >> $OUT/confirm_demo_without$I.txt)
 tail -3 $OUT/confirm_demo_without$I.txt
 W=$(tail -1 $OUT/confirm_demo_with$I.txt); WO=$(tail -1 $OUT/confirm_demo_without$I.txt)
 set +x
